@@ -36,12 +36,13 @@ type Case struct {
 	CompressUTXO   bool     `json:"compress_utxo"`
 	CompressBlocks bool     `json:"compress_blocks"`
 	MaxDataFile    uint64   `json:"max_data_file,omitempty"` // block data rolls over to a new file beyond this size (0: one file)
+	KeepDataFiles  uint32   `json:"keep_data_files,omitempty"` // the node removes block data files older than that many (0: keeps all)
 	Crash          string   `json:"crash,omitempty"`    // "<name>#<n>"; empty in a generated case = enumerate all
 	Truncate       string   `json:"truncate,omitempty"` // "<file>:<length>" applied after a clean run
 }
 
 func (c Case) opts() env.Options {
-	return env.Options{CompressUTXO: c.CompressUTXO, CompressBlocks: c.CompressBlocks, MaxDataFile: c.MaxDataFile}
+	return env.Options{CompressUTXO: c.CompressUTXO, CompressBlocks: c.CompressBlocks, MaxDataFile: c.MaxDataFile, KeepDataFiles: c.KeepDataFiles}
 }
 
 func TestMain(m *testing.M) {
@@ -308,7 +309,11 @@ func recoverAndCheck(c Case, dir, logfn string) (res verdict) {
 		res.Err = fmt.Sprintf("after a clean shutdown and restart at tip %s the unspent-output set differs from the replay:\n%s", tip2.Describe(), d)
 		return
 	}
-	for n, cnt := tip2, 0; n != nil && n.Parent != nil && cnt < 60; n, cnt = n.Parent, cnt+1 {
+	readBack := 60
+	if c.KeepDataFiles > 0 {
+		readBack = 4 // older blocks may sit in data files the node has removed by design
+	}
+	for n, cnt := tip2, 0; n != nil && n.Parent != nil && cnt < readBack; n, cnt = n.Parent, cnt+1 {
 		data, _, e := node2.Ch.Blocks.BlockGet(btc.NewUint256(n.Idx.Hash[:]))
 		if e != nil {
 			res.Err = fmt.Sprintf("block %s of the active chain cannot be read back after the restart: %v", n.Describe(), e)
@@ -624,7 +629,12 @@ func genCase(t *rapid.T) Case {
 	c.CompressUTXO = rapid.IntRange(0, 3).Draw(t, "cutxo") == 0
 	c.CompressBlocks = rapid.Bool().Draw(t, "cblocks")
 	// the rarely used data-file size limit (client: Memory.MaxDataFileMB): blocks then live in several data files
-	c.MaxDataFile = rapid.SampledFrom([]uint64{0, 0, 0, 700, 2000, 6000}).Draw(t, "maxdatafile")
+	c.MaxDataFile = rapid.SampledFrom([]uint64{0, 0, 0, 700, 2000, 6000, 6000}).Draw(t, "maxdatafile")
+	// with the largest of these limits (some twenty blocks per file) sometimes also the retention option: only the
+	// current data file and the one or two before it are kept - far more blocks than any reorganisation here undoes
+	if c.MaxDataFile == 6000 {
+		c.KeepDataFiles = uint32(rapid.SampledFrom([]int{0, 1, 1, 2}).Draw(t, "keepdatafiles"))
+	}
 	return c
 }
 
@@ -659,7 +669,12 @@ func genReorgAfterSnapshot(t *rapid.T) Case {
 	c.CompressUTXO = rapid.IntRange(0, 3).Draw(t, "cutxo") == 0
 	c.CompressBlocks = rapid.Bool().Draw(t, "cblocks")
 	// the rarely used data-file size limit (client: Memory.MaxDataFileMB): blocks then live in several data files
-	c.MaxDataFile = rapid.SampledFrom([]uint64{0, 0, 0, 700, 2000, 6000}).Draw(t, "maxdatafile")
+	c.MaxDataFile = rapid.SampledFrom([]uint64{0, 0, 0, 700, 2000, 6000, 6000}).Draw(t, "maxdatafile")
+	// with the largest of these limits (some twenty blocks per file) sometimes also the retention option: only the
+	// current data file and the one or two before it are kept - far more blocks than any reorganisation here undoes
+	if c.MaxDataFile == 6000 {
+		c.KeepDataFiles = uint32(rapid.SampledFrom([]int{0, 1, 1, 2}).Draw(t, "keepdatafiles"))
+	}
 	return c
 }
 
@@ -719,7 +734,12 @@ func genFailedReorgUnflushed(t *rapid.T) Case {
 	c.CompressUTXO = rapid.IntRange(0, 3).Draw(t, "cutxo") == 0
 	c.CompressBlocks = rapid.Bool().Draw(t, "cblocks")
 	// the rarely used data-file size limit (client: Memory.MaxDataFileMB): blocks then live in several data files
-	c.MaxDataFile = rapid.SampledFrom([]uint64{0, 0, 0, 700, 2000, 6000}).Draw(t, "maxdatafile")
+	c.MaxDataFile = rapid.SampledFrom([]uint64{0, 0, 0, 700, 2000, 6000, 6000}).Draw(t, "maxdatafile")
+	// with the largest of these limits (some twenty blocks per file) sometimes also the retention option: only the
+	// current data file and the one or two before it are kept - far more blocks than any reorganisation here undoes
+	if c.MaxDataFile == 6000 {
+		c.KeepDataFiles = uint32(rapid.SampledFrom([]int{0, 1, 1, 2}).Draw(t, "keepdatafiles"))
+	}
 	return c
 }
 
